@@ -6,6 +6,7 @@ CONSTANTS
   Eps = 1
   Tol = 0
   MaxRows = 2
+  Retry = TRUE
 INVARIANT Reflexive
 INVARIANT RefinesSound
 INVARIANT RefinesComplete
@@ -14,4 +15,5 @@ INVARIANT ReduceSelection
 INVARIANT ReduceEquivalent
 INVARIANT ReduceErrorOnlyIfInfeasible
 INVARIANT NoOtherError
+INVARIANT OptExact
 CHECK_DEADLOCK FALSE
